@@ -164,6 +164,18 @@ Theorem C09_tree_broadcast_prefix_replicates :
 Proof. exact tree_broadcast_prefix_spec. Qed.
 Print Assumptions C09_tree_broadcast_prefix_replicates.
 
+(* broadcast_prefix returns exactly those replicated leaves (any configuration, predicate included) *)
+Theorem C09_broadcast_prefix_leaves :
+  forall c p full lsp spp s subs rs,
+    wf_obj p = true -> wf_obj full = true ->
+    flatten c p = Ok (lsp, spp) -> sspec_of spp = Some s ->
+    ss_flatten_up_to (c_reg c) s full = Ok subs ->
+    Forall2 (fun sub r => flatten c sub = Ok r) subs rs ->
+    broadcast_prefix c p full =
+      Ok (concat (map (fun xq => repeat (fst xq) (length (fst (snd xq)))) (combine lsp rs))).
+Proof. exact broadcast_prefix_spec. Qed.
+Print Assumptions C09_broadcast_prefix_leaves.
+
 Example C09_example :
   let c := {| c_nil := false; c_ns := 1; c_pred := None;
               c_reg := [{| rcls := 0; rns := 1; rid := 1; rpet := 3 |}]; c_ins := []; c_limit := 1000 |} in
